@@ -147,7 +147,7 @@ pub struct MT104 {
     pub field_72: Option<Field72>,
 
     /// Transaction details (Sequence B)
-    #[serde(rename = "#")]
+    #[serde(rename = "#", default)]
     pub transactions: Vec<MT104Transaction>,
 
     /// Settlement amount (Field 32B, Sequence C)
